@@ -53,13 +53,59 @@ example : defQ 0 (-1) 1 0 < 0 := by norm_num [defQ, defP]
 
 /-! ## hqr2: the shift / deflate bookkeeping -/
 
-/-- **`exshift` is the sum of all exceptional shifts applied so far** — after any sequence of sweeps,
+/-- *Invariant of the state machine* (audit round 1, F1: close to definitional — `shifts` is a history
+variable that `applyShift` extends with the value it adds to `exshift`; the statement is that no other
+transition writes `exshift`). Its content about the C++ comes from the record tie (op `trace` replays the
+model's running total against the logged `exshift`); the statement with mathematical content is
+`hqr2_exceptional_shift_invisible` / `hqr2_trace_bookkeeping` below.
+
+**`exshift` is the sum of all exceptional shifts applied so far** — after any sequence of sweeps,
 exceptional shifts (iter == 10, iter == 30) and deflations, from the start of the iteration -/
 theorem hqr2_exshift_is_sum_of_shifts (N : Nat) (diag : Nat → ℝ) (evs : List (HqrEv ℝ)) (st : HqrSt ℝ)
     (h : hqrRun (hqrInit N diag) evs = some st) : st.exshift = st.shifts.sum :=
   hqr_exshift_run evs _ st h (by simp [hqrInit])
 
-/-- **one root: the reported eigenvalue is the deflated diagonal entry plus the sum of all exceptional
+/-- **an exceptional shift is invisible in the frame of the original matrix**: both exceptional shifts
+(`iter == 10`, `iter == 30`, taken or not) leave `H(i,i) + exshift` unchanged for every `i` of the active
+window, and change nothing else that is reported. This is where two separate statements of the C++ — the
+loop `H(i,i) -= x` over `low..n` and `exshift += x` — have to agree; it is the step of
+`hqr2_trace_bookkeeping` that `exshift = x` (seeded C06-b2) and a shortened loop (mutant m16) break. -/
+theorem hqr2_exceptional_shift_invisible (st st' : HqrSt ℝ) (ev : HqrEv ℝ)
+    (hev : ev = .ex10 ∨ ∃ w, ev = .ex30 w) (h : hqrStep st ev = some st') :
+    st'.n = st.n ∧ st'.d = st.d ∧ st'.e = st.e ∧
+    ∀ i, i < st.n → st'.diag i + st'.exshift = st.diag i + st.exshift := by
+  rcases hev with rfl | ⟨w, rfl⟩
+  · simp only [hqrStep] at h
+    split at h
+    · simp only [Option.some.injEq] at h; subst h
+      exact ⟨rfl, rfl, rfl, fun i hi => applyShift_unshifted st _ i hi⟩
+    · cases h
+  · simp only [hqrStep] at h
+    split at h
+    · split at h
+      · simp only [Option.some.injEq] at h; subst h
+        exact ⟨rfl, rfl, rfl, fun i hi => applyShift_unshifted st _ i hi⟩
+      · simp only [Option.some.injEq] at h; subst h
+        exact ⟨rfl, rfl, rfl, fun i _ => rfl⟩
+    · cases h
+
+/-- non-vacuity: the `iter == 10` shift of a 3 × 3 window with diagonal (1, 2, 3) -/
+example : ∃ st', hqrStep (hqrInit 3 (fun i => ((i : ℝ) + 1))) .ex10 = some st' ∧ st'.exshift = 3 ∧ st'.diag 0 = -2 := by
+  refine ⟨_, rfl, ?_, ?_⟩
+  all_goals (first | (simp [applyShift, hqrInit]; done) | (simp [applyShift, hqrInit]; norm_num))
+
+/-- the cancellation is a property of the transcribed text, not of every update of this shape: with
+`exshift = x` in place of `exshift += x` (`applyShiftOverwrite`, not the model) a second shift moves the
+window in the original frame by the first one -/
+theorem hqr2_overwriting_exshift_is_visible :
+    ∃ (st : HqrSt ℝ) (x : ℝ), 0 < st.n ∧
+      (applyShiftOverwrite st x).diag 0 + (applyShiftOverwrite st x).exshift ≠ st.diag 0 + st.exshift := by
+  refine ⟨applyShift (hqrInit 3 (fun _ => (1 : ℝ))) 1, 1, by simp [applyShift, hqrInit], ?_⟩
+  simp [applyShiftOverwrite, applyShift, hqrInit]
+
+/-- *Invariant of the state machine* (audit F1: the `defl1` transition unfolded plus the invariant above;
+content through the record tie).
+**one root: the reported eigenvalue is the deflated diagonal entry plus the sum of all exceptional
 shifts applied so far**, its imaginary part is 0 and the window shrinks by one — whatever happened
 before (`pre` is any event sequence).  This is the clause that `exshift = x` in place of
 `exshift += x` breaks from the second exceptional shift on. -/
@@ -108,7 +154,9 @@ theorem hqr2_two_roots_report_shifted_block (N : Nat) (diag : Nat → ℝ) (pre 
   · obtain ⟨r1, r2, r3, r4, r5⟩ := deflate2_complex (st.diag k) b c (st.diag (k + 1)) st.exshift (not_le.mp hq)
     exact ⟨r4, r3, le_of_lt r2, fun _ => r1, r5⟩
 
-/-- **a reported eigenvalue is final**: no later event changes `d[i]`, `e[i]` outside the active window,
+/-- *Frame property of the state machine* (audit F1: the transitions write `d`, `e` only at the indices they
+deflate; content through the record tie, which compares the model's accumulated lists with the final ones).
+**a reported eigenvalue is final**: no later event changes `d[i]`, `e[i]` outside the active window,
 and the window never grows -/
 theorem hqr2_reported_is_final (st st' : HqrSt ℝ) (evs : List (HqrEv ℝ)) (h : hqrRun st evs = some st') :
     st'.n ≤ st.n ∧ ∀ i, st.n ≤ i → st'.d i = st.d i ∧ st'.e i = st.e i :=
@@ -150,19 +198,39 @@ theorem tql2_shift_uniform (n l : Nat) (d : Nat → ℝ) (el r : ℝ) (hl : l + 
 example : ∃ (d : Nat → ℝ) (el r : ℝ), el ≠ 0 ∧ 0 < r ∧ r * r = tqlP 0 d el * tqlP 0 d el + 1 :=
   ⟨fun _ => 0, 1, 1, by norm_num, by norm_num, by simp [tqlP]⟩
 
-/-- **`f` is the sum of all shifts so far** -/
+/-- **a shift of tql2 is invisible in the frame of the tridiagonal matrix**: with `r = hypot(p, 1)` and
+`e[l] ≠ 0`, one pass of the do-loop up to `f = f + h` leaves `d[i] + f` unchanged for every `i` of the
+active part `l .. n-1` (closed formulas for `l`, `l+1`, the loop for the rest, and the accumulation have to
+agree: `i <= m` for `i < n`, seeded C06-b1, and `f = h`, mutant m18, break it) and touches nothing else -/
+theorem tql2_shift_invisible (st st' : TqlSt ℝ) (el r : ℝ) (hel : el ≠ 0) (hr : 0 < r)
+    (hrr : r * r = tqlP st.l st.d el * tqlP st.l st.d el + 1) (h : tqlStep st (.shift el r) = some st') :
+    st'.l = st.l ∧ st'.n = st.n ∧ (∀ i, st.l ≤ i → i < st.n → st'.d i + st'.f = st.d i + st.f) ∧
+    ∀ i, (i < st.l ∨ st.n ≤ i) → st'.d i = st.d i := by
+  simp only [tqlStep] at h
+  split at h
+  · rename_i hl
+    simp only [Option.some.injEq] at h; subst h
+    obtain ⟨u1, u2⟩ := tqlShift_uniform st.n st.l st.d el r hl hel hr hrr
+    refine ⟨rfl, rfl, fun i h1 h2 => ?_, fun i hi => u2 i hi⟩
+    simp only []
+    rw [u1 i h1 h2]; ring
+  · cases h
+
+/-- *Invariant of the state machine* (audit F1: `shifts` is a history variable extended with the `h` added to
+`f`; content through the record tie). **`f` is the sum of all shifts so far** -/
 theorem tql2_f_is_sum_of_shifts (n : Nat) (d : Nat → ℝ) (evs : List (TqlEv ℝ)) (st : TqlSt ℝ)
     (h : tqlRun (tqlInit n d) evs = some st) : st.f = st.shifts.sum :=
   tql_f_run evs _ st h (by simp [tqlInit])
 
-/-- **the reported eigenvalue is the working entry plus the sum of all shifts so far** -/
+/-- *Invariant of the state machine* (audit F1: the `fin` transition unfolded plus the invariant above).
+**the reported eigenvalue is the working entry plus the sum of all shifts so far** -/
 theorem tql2_reports_entry_plus_shifts (n : Nat) (d : Nat → ℝ) (pre : List (TqlEv ℝ)) (st : TqlSt ℝ)
     (h : tqlRun (tqlInit n d) pre = some st) (hl : st.l < st.n) :
     ∃ st', tqlStep st .fin = some st' ∧ st'.l = st.l + 1 ∧ st'.d st.l = st.d st.l + st.shifts.sum := by
   have hs := tql2_f_is_sum_of_shifts n d pre st h
   exact ⟨{ st with d := upd st.d st.l (st.d st.l + st.f), l := st.l + 1 }, by simp [tqlStep, hl], rfl, by simp [upd, hs]⟩
 
-/-- **a finished eigenvalue is final** -/
+/-- *Frame property of the state machine* (audit F1). **a finished eigenvalue is final** -/
 theorem tql2_reported_is_final (st st' : TqlSt ℝ) (evs : List (TqlEv ℝ)) (h : tqlRun st evs = some st') :
     st.l ≤ st'.l ∧ ∀ i, i < st.l → st'.d i = st.d i :=
   ⟨(tql_stable_run evs st st' h).1, (tql_stable_run evs st st' h).2.2.2⟩
